@@ -16,7 +16,7 @@ pub fn run(toks: &[&str]) -> String {
     let nl: usize = toks[3].parse().unwrap();
     let mut roots = Vec::new();
     for i in 0..nl {
-        let r = scratch.base.join(format!("L{}", i));
+        let r = scratch.base.join(layer_dir_name(i));
         std::fs::create_dir(&r).unwrap();
         roots.push(r);
     }
